@@ -278,4 +278,18 @@ end
 /-- the shape of an element's value: as above, but not a list -/
 def Decoded (v : Val) : Bool := !v.isList && DecodedChild v
 
+mutual
+/-- names of a tree that survive decode → encode with default options: attribute names are
+    non-empty, and no child element's name is an attribute key (prefix "-" plus at least one
+    character — never the case for an XML name, which cannot start with '-') -/
+def NamesOk : Node → Bool
+  | .elem _ _ attrs kids => attrs.all (fun a => !a.name.isEmpty) && NamesOkKids kids
+  | _ => true
+def NamesOkKids : List Node → Bool
+  | [] => true
+  | .elem sp name attrs kids :: rest =>
+      !isAttrK ec name && NamesOk (.elem sp name attrs kids) && NamesOkKids rest
+  | _ :: rest => NamesOkKids rest
+end
+
 end Mxj
